@@ -63,16 +63,16 @@ pub fn id_pool(rng: &mut Rng, n: usize, allow_huge: bool) -> Vec<u64> {
     let flavor = rng.below(if allow_huge { 4 } else { 2 });
     while s.len() < n {
         let id = match flavor {
-            0 => rng.below(6),
-            1 => rng.below(12),
+            0 => rng.below(6.max(2 * n as u64)),
+            1 => rng.below(12.max(2 * n as u64)),
             2 => {
                 if rng.bool() {
                     rng.below(6)
                 } else {
-                    *rng.pick(&[1u64 << 32, (1u64 << 32) + 1, 1u64 << 53, (1u64 << 53) + 2, 1_000_003, (1u64 << 62) - 1])
+                    *rng.pick(&[1u64 << 32, (1u64 << 32) + 1, 1u64 << 53, (1u64 << 53) + 2, 1_000_003, (1u64 << 62) - 40]) + if n > 8 { rng.below(n as u64) } else { 0 }
                 }
             }
-            _ => (1u64 << 32) + rng.below(8),
+            _ => (1u64 << 32) + rng.below(8.max(2 * n as u64)),
         };
         s.insert(id);
     }
